@@ -550,6 +550,10 @@ class SMHooks(NAHooks, OpHooks):
         if name == 'astype':
             def astype(dt):
                 k = as_dt(dt).d.kind
+                if k == sp.dt.d.kind and as_dt(dt) != sp.dt:
+                    # another precision of the same kind
+                    return NSpace(sp.shape, dt, sp.weight, sp.exponent,
+                                  sp.name, sp.cell_volume, sp.cell_sides)
                 if k == 'f':
                     return sp.twin(True)
                 if k == 'c':
